@@ -52,30 +52,58 @@ func main() {
 		types = append(types, env.Types2()[:8]...)
 		types = append(types, env.Types2()[len(env.Types2())-1])
 	}
+	env.NoDefaultRoots = true
 	roots := env.StandardRoots(types)
 	prog := env.Program()
+	// roots with declared defaults live in a program of their own: if its code does not compile
+	// (C01's subject) the other roots are still decided
+	envD := universe.NewEnv("c10d")
+	envD.OnlyDefaultRoots = true
+	rootsD := envD.StandardRoots(nil)
+	progD := envD.Program()
 	configs := [][]string{nil}
 	if thorough {
 		configs = append(configs, []string{"keep_unknown_fields"}, []string{"value_type_in_container"}, []string{"enum_as_int_32"}, []string{"naming_style=golint"})
 	}
 	var items []*gen.Item
+	rootsOf := map[*gen.Item][]*universe.Root{}
 	for i, c := range configs {
-		items = append(items, ses.Batch.Add(&gen.Item{Key: fmt.Sprintf("f%d", i), Prog: prog, Backend: "fastgo", Opts: c, Recurse: true}))
+		it := ses.Batch.Add(&gen.Item{Key: fmt.Sprintf("f%d", i), Prog: prog, Backend: "fastgo", Opts: c, Recurse: true})
+		items = append(items, it)
+		rootsOf[it] = roots
+		itd := ses.Batch.Add(&gen.Item{Key: fmt.Sprintf("d%d", i), Prog: progD, Backend: "fastgo", Opts: c, Recurse: true})
+		items = append(items, itd)
+		rootsOf[itd] = rootsD
 	}
 	ses.Start("f0")
 
-	var vecs []*vec
-	for _, r := range roots {
-		if _, ok := items[0].Types[r.Name]; !ok {
-			run.Violate(evid.Violation{Class: "generated-type-missing", What: "no generated type for " + r.Name, Replay: map[string]any{"struct": r.Name}})
-			continue
+	vecsOf := map[*gen.Item][]*vec{}
+	mk := func(it *gen.Item, rs []*universe.Root) []*vec {
+		var out []*vec
+		if !gen.Usable(it) {
+			return nil
 		}
-		for _, v := range refsem.StructDomain(r.S, 2, true) {
-			vecs = append(vecs, &vec{r: r, v: v, ref: refsem.EncodeStruct(nil, r.S.Fields, refsem.Complete(r.S, v))})
+		for _, r := range rs {
+			if _, ok := it.Types[r.Name]; !ok {
+				run.Violate(evid.Violation{Class: "generated-type-missing", What: "no generated type for " + r.Name, Replay: map[string]any{"struct": r.Name}})
+				continue
+			}
+			for _, v := range refsem.StructDomain(r.S, 2, true) {
+				out = append(out, &vec{r: r, v: v, ref: refsem.EncodeStruct(nil, r.S.Fields, refsem.Complete(r.S, v))})
+			}
+		}
+		return out
+	}
+	nvec := 0
+	for _, it := range items {
+		vecsOf[it] = mk(it, rootsOf[it])
+		if strings.HasSuffix(it.Key, "0") {
+			nvec += len(vecsOf[it])
 		}
 	}
-	run.Set("roots", len(roots))
-	run.Set("value_vectors", len(vecs))
+	vecs := vecsOf[items[0]]
+	run.Set("roots", len(roots)+len(rootsD))
+	run.Set("value_vectors", nvec)
 	outcomes := map[string]int64{}
 	viol := func(class, what string, v *vec, extra map[string]any) {
 		rp := map[string]any{"struct": v.r.Name, "value": v.v, "reference_encoding": hex.EncodeToString(v.ref)}
@@ -103,6 +131,7 @@ func main() {
 		if !gen.Usable(it) {
 			continue
 		}
+		vecs := vecsOf[it]
 		// ---- write side: fastwrite, fastappend, standard write
 		var reqs []*gen.Req
 		for _, v := range vecs {
@@ -160,6 +189,7 @@ func main() {
 			kind  string
 		}
 		var rds []rd
+		deletedFor := map[string]bool{}
 		for i, v := range vecs {
 			rds = append(rds, rd{v, v.ref, "reference"})
 			if stdBytes[i] != nil && string(stdBytes[i]) != string(v.ref) {
@@ -167,6 +197,13 @@ func main() {
 			}
 			if v.r.Kernel != nil && v.v.Get(1) != nil && (thorough || i%2 == 0) {
 				for _, p := range perturbations(v.ref) {
+					rds = append(rds, rd{v, p.b, p.kind})
+				}
+			}
+			// hand-written roots (many required fields, wide ids, ...): every single field deleted in turn
+			if v.r.Kernel == nil && !deletedFor[v.r.Name] {
+				deletedFor[v.r.Name] = true
+				for _, p := range deletions(v.ref) {
 					rds = append(rds, rd{v, p.b, p.kind})
 				}
 			}
@@ -289,6 +326,24 @@ func perturbations(ref []byte) []pert {
 			}
 			out = append(out, pert{append([]byte{}, ref[n:]...), "delete-field"})
 		}
+	}
+	return out
+}
+
+// deletions: the encoding with each of its top-level fields removed in turn.
+func deletions(ref []byte) []pert {
+	var out []pert
+	pos := 0
+	k := 0
+	for pos < len(ref)-1 {
+		n := fieldLen(ref[pos:])
+		if n <= 0 {
+			break
+		}
+		c := append(append([]byte{}, ref[:pos]...), ref[pos+n:]...)
+		out = append(out, pert{c, fmt.Sprintf("delete-field:%d", k)})
+		pos += n
+		k++
 	}
 	return out
 }
